@@ -256,16 +256,23 @@ theorem Safe.timerAdd_fst (h : Safe ex w) (p : Pid) (d sig : Int) (hd : 0 ≤ d)
   simp only [Sim.timerAdd]
   exact (h.sched_ge _ _ _ _ _ (by simp only [World.now]; omega)).addAwait _ _
 
-/-- objects other than pools: any change of `res`, `bufs`, `oqs`, `pqs` that keeps the static data -/
-theorem Safe.setRes (h : Safe ex w) (x : Array Res) (hs : Stat w { w with res := x }) : Safe ex { w with res := x } :=
-  h.same rfl rfl rfl hs
-theorem Safe.setBufs (h : Safe ex w) (x : Array Buf) (hs : Stat w { w with bufs := x }) : Safe ex { w with bufs := x } :=
-  h.same rfl rfl rfl hs
-theorem Safe.setOqs (h : Safe ex w) (x : Array OQ) (hs : Stat w { w with oqs := x }) : Safe ex { w with oqs := x } :=
-  h.same rfl rfl rfl hs
-theorem Safe.setPqs (h : Safe ex w) (x : Array PQ) (hs : Stat w { w with pqs := x }) : Safe ex { w with pqs := x } :=
-  h.same rfl rfl rfl hs
-
+/-- objects other than pools: writing an element that keeps the static data -/
+theorem Safe.setResSet (h : Safe ex w) (r : Nat) (y : Res) (hy : ∀ x, w.res[r]? = some x → resStat y = resStat x) :
+    Safe ex { w with res := w.res.set! r y } := h.same rfl rfl rfl ((Stat.refl w).setResSet r y hy)
+theorem Safe.setResModify (h : Safe ex w) (r : Nat) (g : Res → Res) (hg : ∀ x, resStat (g x) = resStat x) :
+    Safe ex { w with res := w.res.modify r g } := h.same rfl rfl rfl ((Stat.refl w).setResModify r g hg)
+theorem Safe.setBufsSet (h : Safe ex w) (r : Nat) (y : Buf) (hy : ∀ x, w.bufs[r]? = some x → bufStat y = bufStat x) :
+    Safe ex { w with bufs := w.bufs.set! r y } := h.same rfl rfl rfl ((Stat.refl w).setBufsSet r y hy)
+theorem Safe.setBufsModify (h : Safe ex w) (r : Nat) (g : Buf → Buf) (hg : ∀ x, bufStat (g x) = bufStat x) :
+    Safe ex { w with bufs := w.bufs.modify r g } := h.same rfl rfl rfl ((Stat.refl w).setBufsModify r g hg)
+theorem Safe.setOqsSet (h : Safe ex w) (r : Nat) (y : OQ) (hy : ∀ x, w.oqs[r]? = some x → oqStat y = oqStat x) :
+    Safe ex { w with oqs := w.oqs.set! r y } := h.same rfl rfl rfl ((Stat.refl w).setOqsSet r y hy)
+theorem Safe.setOqsModify (h : Safe ex w) (r : Nat) (g : OQ → OQ) (hg : ∀ x, oqStat (g x) = oqStat x) :
+    Safe ex { w with oqs := w.oqs.modify r g } := h.same rfl rfl rfl ((Stat.refl w).setOqsModify r g hg)
+theorem Safe.setPqsSet (h : Safe ex w) (r : Nat) (y : PQ) (hy : ∀ x, w.pqs[r]? = some x → pqStat y = pqStat x) :
+    Safe ex { w with pqs := w.pqs.set! r y } := h.same rfl rfl rfl ((Stat.refl w).setPqsSet r y hy)
+theorem Safe.setPqsModify (h : Safe ex w) (r : Nat) (g : PQ → PQ) (hg : ∀ x, pqStat (g x) = pqStat x) :
+    Safe ex { w with pqs := w.pqs.modify r g } := h.same rfl rfl rfl ((Stat.refl w).setPqsModify r g hg)
 
 /-! ### pools: the holder list is untouched -/
 
@@ -402,10 +409,14 @@ macro_rules | `(tactic| safe_step) => `(tactic| dsimp only)
 macro_rules | `(tactic| safe_step) => `(tactic| (guard_world_lit; with_reducible apply Safe.setGvars))
 macro_rules | `(tactic| safe_step) => `(tactic| (guard_world_lit; with_reducible apply Safe.setFlags))
 macro_rules | `(tactic| safe_step) => `(tactic| (guard_world_lit; with_reducible apply Safe.setEvWaiters))
-macro_rules | `(tactic| safe_step) => `(tactic| (guard_world_lit; with_reducible refine Safe.setPqs ?_ _ (by have h0 := Stat.refl _; stat)))
-macro_rules | `(tactic| safe_step) => `(tactic| (guard_world_lit; with_reducible refine Safe.setOqs ?_ _ (by have h0 := Stat.refl _; stat)))
-macro_rules | `(tactic| safe_step) => `(tactic| (guard_world_lit; with_reducible refine Safe.setBufs ?_ _ (by have h0 := Stat.refl _; stat)))
-macro_rules | `(tactic| safe_step) => `(tactic| (guard_world_lit; with_reducible refine Safe.setRes ?_ _ (by have h0 := Stat.refl _; stat)))
+macro_rules | `(tactic| safe_step) => `(tactic| (guard_world_lit; with_reducible refine Safe.setPqsModify ?_ _ _ (fun _ => rfl)))
+macro_rules | `(tactic| safe_step) => `(tactic| (guard_world_lit; with_reducible refine Safe.setPqsSet ?_ _ _ (by stat_side)))
+macro_rules | `(tactic| safe_step) => `(tactic| (guard_world_lit; with_reducible refine Safe.setOqsModify ?_ _ _ (fun _ => rfl)))
+macro_rules | `(tactic| safe_step) => `(tactic| (guard_world_lit; with_reducible refine Safe.setOqsSet ?_ _ _ (by stat_side)))
+macro_rules | `(tactic| safe_step) => `(tactic| (guard_world_lit; with_reducible refine Safe.setBufsModify ?_ _ _ (fun _ => rfl)))
+macro_rules | `(tactic| safe_step) => `(tactic| (guard_world_lit; with_reducible refine Safe.setBufsSet ?_ _ _ (by stat_side)))
+macro_rules | `(tactic| safe_step) => `(tactic| (guard_world_lit; with_reducible refine Safe.setResModify ?_ _ _ (fun _ => rfl)))
+macro_rules | `(tactic| safe_step) => `(tactic| (guard_world_lit; with_reducible refine Safe.setResSet ?_ _ _ (by stat_side)))
 macro_rules | `(tactic| safe_step) => `(tactic| split)
 macro_rules | `(tactic| safe_step) => `(tactic| with_reducible apply Safe.signal)
 macro_rules | `(tactic| safe_step) => `(tactic| with_reducible apply Safe.guardRemove_fst)
